@@ -49,11 +49,12 @@ CLAIMS = {
             "mean no stiff state; foreign names are only ever compared with state names; add_schemes forwards stiff_states to the hybrid scheme only.",
             "as C05/C06"),
     "C08": ("proof", "Proved: the predicate that decides whether a second definition of a name is the same definition (_same_definition: same "
-            "kind, and same expression tree / same value) - TreeToODE.ode raises DuplicateSymbolError when it is false; a normal return of "
+            "kind, and same expression tree / same value) ; TreeToODE.ode (nested loops over lines, atoms and component names, nested dict of sets) returns normally only if any two definitions "
+            "of one name are the same definition, puts every atom into each of its components and freezes every row unchanged; a normal return of "
             "sort_assignments implies the dependency graph is acyclic and no assignment has a None value (CycleError / GotranxError otherwise); "
-            "a variable node resolved by build_expression is a defined symbol (MissingSymbolError otherwise). Missing / orphan derivatives and "
-            "the wiring of the duplicate check inside TreeToODE.ode are decided by the bounded stand-in (one fault injected per site).",
-            "TreeToODE.ode, check_components, find_state are not under contract (heterogeneous lark item lists): bounded only"),
+            "a variable node resolved by build_expression is a defined symbol (MissingSymbolError otherwise). Missing / orphan derivatives are decided by the bounded "
+            "stand-in (one fault injected per site).",
+            "check_components, find_state, _handle_assignments are not under contract: missing / orphan derivatives are bounded only"),
     "C09": ("proof", "Proved: sort_assignments feeds the topological sorter a sequence that is a function of its input only (sorted dependencies), "
             "so its result is a function of the assignments; accessors sort name-unique sets; sorted_assignments, missing_variables are functions "
             "of the model; get_scheme has no effect on module-level state. Every set iteration is executed with an arbitrary fresh order. "
@@ -61,10 +62,11 @@ CLAIMS = {
             "graphlib.static_order assumed to be a function of its add() sequence; lark/transformer stage covered by the bounded stand-in only"),
     "C10": ("proof", "Proved: every order-carrying read of a model goes through a name-sorted accessor of a name-unique set (states, parameters, "
             "state_derivatives, intermediates) or through sort_assignments, whose add() sequence is a function of the name-sorted input; "
-            "ODE.__eq__ compares components after sorting by name. Hence permuting blocks, entries or lines cannot change layout, generated "
-            "code or equality once the same sets of atoms are built. That lark + TreeToODE.ode build the same sets for a permuted text is "
-            "decided by the bounded stand-in (all permutations of small models).",
-            "lark and TreeToODE.ode not under contract"),
+            "ODE.__eq__ compares components after sorting by name; TreeToODE.ode puts every atom of every line into each of its components "
+            "whatever the position of the line (pointwise over line, entry and component indices), so the component sets do not depend on the "
+            "order of blocks, entries or lines. That lark hands a permuted text over as the permuted item list is decided by the bounded "
+            "stand-in (all permutations of small models).",
+            "lark's LALR tables not under contract"),
     "C11": ("proof", "Proved on instances (exhaustive over sympy's six relational operators; And/Or 2..4 operands; Piecewise 2..4 branches): the .ode "
             "printer overrides spell only functions of the grammar (read mechanically from ode.lark), != is written Not(Eq()), E is written exp(1). "
             "The writer glue (blocks, ScalarParam) and closure of sympy's normal forms under the grammar are decided by the bounded stand-in "
@@ -89,7 +91,8 @@ CLAIMS = {
             "existing test).",
             "sympy singularities/limit/piecewise_fold assumed"),
     "C17": ("proof", "Proved: get_unit_and_comment_from_assignment never lets an exception escape, whatever pint raises for the comment text "
-            "(assumed: pint may raise anything). Placement of comments/blank lines/continuations is decided by the grammar (LALR tables): "
+            "(assumed: pint may raise anything); TreeToODE.ode skips Comment and blank-string items and their presence does not affect which "
+            "component an atom lands in. Placement of comments/blank lines/continuations is decided by the grammar (LALR tables): "
             "bounded stand-in inserts comments at every line boundary.",
             "termination (hang on `# 9**9**9`) is outside partial correctness: bounded only; grammar-level findings are listed"),
     "C18": ("proof", "Proved: ode2py/ode2c/convert forward every declared option (configuration file entries overriding the command line) to "
